@@ -2296,3 +2296,327 @@ Proof.
     split; [reflexivity|]. assert (n <> O) by (intros ->; discriminate). split; [assumption|]. unfold n in *. lia.
   - right. left. split; [reflexivity|]. change (Z.of_nat 4) with 4 in E4. lia.
 Qed.
+
+(* ================================================================================================ *)
+(* Part 9: v2 life goes on after a failed store.  Everything proved for v2_Inv also holds from the weakly valid   *)
+(* states (v2_WInv) that failed stores leave behind: further histories, defragmentation, whole caches.            *)
+
+Definition v2_wextra (f : bfile) : Prop :=
+  bytes_ok f /\ (forall s a d, slot_ok s -> v2_rec f s = Some (a, d) -> brd f a 4 = zlen d).
+
+Lemma v2_WInv_is_g f : v2_WInv f <-> Inv_g bfile v2_rec blen B2 two24 v2_wextra f.
+Proof. reflexivity. Qed.
+
+Lemma v2_store_facts_w f s d :
+  Inv_g bfile v2_rec blen B2 two24 v2_wextra f -> slot_ok s -> bytes_okl d -> zlen d < two24 -> blen f + 4 + zlen d < two40 ->
+  exists f', v2_store1 f s d = Some f' /\ v2_wextra f' /\ blen f' = blen f + 4 + zlen d /\
+    v2_rec f' s = (if zlen d =? 0 then None else Some (blen f, d)) /\
+    forall s', slot_ok s' -> s' <> s -> v2_rec f' s' = v2_rec f s'.
+Proof.
+  intros HW Hs Hd Hm Hg. change (v2_WInv f) in HW.
+  rewrite (v2_store1_is_writes f s d HW Hs Hd Hm Hg). eexists. split; [reflexivity|].
+  destruct (v2_store_states f s d HW Hs Hd Hm Hg) as [_ [_ [[W3 [R3 O3]] [H8 L3]]]]. cbv zeta in *.
+  pose proof (zlen_nonneg d). assert (T24 : two24 = 16777216) by reflexivity. assert (T40 : two40 = 1099511627776) by reflexivity.
+  set (g3 := bwrite (bwrite (bwrite f (blen f) (le 4 (zlen d))) (blen f + 4) d) (v2_idx s) (le 8 (v2_entry_encode (blen f + 4) (zlen d)))) in *.
+  assert (HB2 : B2 = 131136) by reflexivity. assert (G1 : B2 <= blen f) by (destruct HW as [[G1 _] _]; exact G1).
+  assert (Hfin : forall g, v2_WInv g -> blen g = blen f + 4 + zlen d -> (forall s', slot_ok s' -> v2_rec g s' = v2_rec g3 s') ->
+     v2_wextra g /\ blen g = blen f + 4 + zlen d /\
+     v2_rec g s = (if zlen d =? 0 then None else Some (blen f, d)) /\
+     forall s', slot_ok s' -> s' <> s -> v2_rec g s' = v2_rec f s').
+  { intros g [_ Wg] Lg Rg. splits; [exact Wg|exact Lg|rewrite Rg by assumption; exact R3|].
+    intros s' Hs' Hne. rewrite Rg by assumption. now apply O3. }
+  assert (Hh : forall g o t, v2_WInv g -> blen g = blen f + 4 + zlen d -> (forall s', slot_ok s' -> v2_rec g s' = v2_rec g3 s') ->
+     bytes_okl t -> 0 <= o -> o + zlen t <= 32 ->
+     v2_WInv (bwrite g o t) /\ blen (bwrite g o t) = blen f + 4 + zlen d /\
+     forall s', slot_ok s' -> v2_rec (bwrite g o t) s' = v2_rec g3 s').
+  { intros g o t Wg Lg Rg Ht Ho Hn. destruct (v2_header_w g o t Wg Ht Ho Hn) as [W R]. pose proof (zlen_nonneg t).
+    splits; [exact W|rewrite blen_bwrite; lia|]. intros s' Hs'. rewrite R by assumption. now apply Rg. }
+  unfold v2_store_writes. cbv zeta. fold g3.
+  destruct (brd f 8 4 <? zlen d); cbn [app apply_writes fold_left fst snd]; fold g3.
+  - destruct (Hh g3 8 (le 4 (zlen d)) W3 L3 (fun _ _ => eq_refl) (le_bytes _ _)) as [W4 [L4 R4]]; [lia|rewrite zlen_le; lia|].
+    destruct (Hh _ 24 (le 8 (blen f + 4 + zlen d)) W4 L4 R4 (le_bytes _ _)) as [W5 [L5 R5]]; [lia|rewrite zlen_le; lia|].
+    apply Hfin; assumption.
+  - destruct (Hh g3 24 (le 8 (blen f + 4 + zlen d)) W3 L3 (fun _ _ => eq_refl) (le_bytes _ _)) as [W5 [L5 R5]]; [lia|rewrite zlen_le; lia|].
+    apply Hfin; assumption.
+Qed.
+
+Lemma v2_remove_facts_w f s : Inv_g bfile v2_rec blen B2 two24 v2_wextra f -> slot_ok s ->
+  v2_wextra (v2_remove1 f s) /\ blen (v2_remove1 f s) = blen f /\ v2_rec (v2_remove1 f s) s = None /\
+  forall s', slot_ok s' -> s' <> s -> v2_rec (v2_remove1 f s) s' = v2_rec f s'.
+Proof.
+  intros [[G1 [G2 _]] [Hb Hrec]] Hs. destruct (v2_idx_range s Hs) as [I1 [I2 _]].
+  assert (HB2 : B2 = 131136) by reflexivity.
+  unfold v2_remove1. rewrite v2_entry_encode_spec. change (0 + 0 * two40) with 0. set (f' := bwrite f (v2_idx s) (le 8 0)).
+  assert (L : blen f' = blen f) by (unfold f'; rewrite blen_bwrite, zlen_le; lia).
+  assert (F : forall o n, o + Z.of_nat n <= v2_idx s \/ v2_idx s + 8 <= o -> bread f' o n = bread f o n).
+  { intros o n H. unfold f'. apply bread_bwrite_out; [lia|rewrite zlen_le; lia]. }
+  assert (Hself : v2_rec f' s = None).
+  { unfold v2_rec. unfold f'. rewrite brd_bwrite_same by (rewrite ?pow8; unfold two64; lia). reflexivity. }
+  assert (Hother : forall s', slot_ok s' -> s' <> s -> v2_rec f' s' = v2_rec f s').
+  { intros s' Hs' Hne. destruct (v2_idx_range s' Hs') as [J1 [J2 _]].
+    pose proof (v2_idx_disj s s' Hs Hs' (fun H => Hne (eq_sym H))) as Hdis.
+    specialize (G2 s'). unfold v2_rec in *.
+    assert (Ev : brd f' (v2_idx s') 8 = brd f (v2_idx s') 8) by (unfold brd; rewrite F by (change (Z.of_nat 8) with 8; lia); reflexivity).
+    rewrite Ev. set (v' := brd f (v2_idx s') 8) in *. destruct (v' / two40 =? 0) eqn:E0; [reflexivity|].
+    destruct (G2 _ _ Hs' eq_refl) as [Ha [Hbnd _]]. f_equal. f_equal. apply F. lia. }
+  splits; [|exact L|exact Hself|exact Hother].
+  split.
+  - unfold f'. apply bytes_ok_bwrite; [assumption|apply le_bytes|lia].
+  - intros s' a d' Hs' Hr. destruct (slot_eq_dec s' s) as [->|Hne]; [congruence|].
+    rewrite Hother in Hr by assumption. rewrite <- (Hrec s' a d' Hs' Hr).
+    destruct (G2 s' a d' Hs' Hr) as [Ha _]. unfold brd. rewrite F; [reflexivity|change (Z.of_nat 4) with 4; lia].
+Qed.
+
+Lemma v2_fresh_facts_w : v2_wextra v2_init /\ blen v2_init = B2 /\ forall s, slot_ok s -> v2_rec v2_init s = None.
+Proof.
+  destruct v2_fresh_facts as [[Hb [_ Hr]] [Hl Hn]]. splits; auto. split; [exact Hb|].
+  intros s a d Hs H. now destruct (Hr s a d Hs H).
+Qed.
+
+Lemma v2_load_rec_g f s : Inv_g bfile v2_rec blen B2 two24 v2_wextra f -> slot_ok s ->
+  v2_load f s = match v2_rec f s with Some (_, d) => RData d | None => RMissing end.
+Proof. exact (v2_load_rec_w f s). Qed.
+
+Ltac inst_w2 lem X :=
+  pose proof (lem bfile v2_load v2_store1 v2_remove1 v2_init v2_rec blen B2 two24 v2_wextra) as X;
+  repeat first [specialize (X v2_load_rec_g) | specialize (X v2_store_facts_w) | specialize (X v2_remove_facts_w)
+               | specialize (X v2_fresh_facts_w)].
+
+Theorem v2_w_store f s d :
+  v2_WInv f -> slot_ok s -> bytes_okl d -> zlen d < two24 -> blen f + 4 + zlen d < two40 ->
+  exists f', v2_store1 f s d = Some f' /\ v2_WInv f' /\ blen f' = blen f + 4 + zlen d /\
+    v2_load f' s = (if zlen d =? 0 then RMissing else RData d) /\
+    forall s', slot_ok s' -> s' <> s -> v2_load f' s' = v2_load f s'.
+Proof.
+  intros HI Hs Hd Hm Hg. inst_w2 g_inv_store X.
+  destruct (X f s d HI Hs Hd Hm Hg) as [f' [E [HI' [Hl [Hr Ho]]]]].
+  exists f'. change (v2_WInv f') in HI'. splits; auto.
+  - rewrite v2_load_rec_w by assumption. rewrite Hr. destruct (zlen d =? 0); reflexivity.
+  - intros s' Hs' Hne. rewrite !v2_load_rec_w by assumption. now rewrite Ho.
+Qed.
+
+Theorem v2_w_remove f s : v2_WInv f -> slot_ok s ->
+  v2_WInv (v2_remove1 f s) /\ blen (v2_remove1 f s) = blen f /\ v2_load (v2_remove1 f s) s = RMissing /\
+  forall s', slot_ok s' -> s' <> s -> v2_load (v2_remove1 f s) s' = v2_load f s'.
+Proof.
+  intros HI Hs. inst_w2 g_inv_remove X. destruct (X f s HI Hs) as [HI' [Hl [Hr Ho]]].
+  change (v2_WInv (v2_remove1 f s)) in HI'. splits; auto.
+  - rewrite v2_load_rec_w by assumption. now rewrite Hr.
+  - intros s' Hs' Hne. rewrite !v2_load_rec_w by assumption. now rewrite Ho.
+Qed.
+
+(* a history that continues from a weakly valid bundle (e.g. after a failed store) *)
+Theorem v2_w_history ops f :
+  v2_WInv f -> Forall (op_ok two24) ops -> blen f + ops_bytes ops < two40 ->
+  exists f', fold_left v2_step ops (Some f) = Some f' /\ v2_WInv f' /\ blen f' = blen f + ops_bytes ops.
+Proof. intros HI Hf Hg. inst_w2 g_history_inv X. exact (X ops f HI Hf Hg). Qed.
+
+Theorem v2_w_defrag f : v2_WInv f -> blen f < two40 ->
+  exists r, v2_defrag f = Some r /\
+    (forall s, slot_ok s -> g_load_opt bfile v2_load r s = v2_load f s) /\
+    (forall f', r = Some f' -> v2_WInv f' /\ blen f' <= blen f).
+Proof.
+  intros HI Hg. inst_w2 g_defrag_spec X. destruct (X f HI Hg) as [r [E [Hl [Hs _]]]].
+  exists r. splits; auto. intros f' Hr. destruct (Hs f' Hr) as [HI' [_ ?]]. split; [exact HI'|assumption].
+Qed.
+
+Lemma v2_w_defrag_k (k : bkey) f : v2_WInv f -> blen f < two40 ->
+  exists r, v2_defrag f = Some r /\ (forall s, slot_ok s -> g_load_opt bfile v2_load r s = v2_load f s) /\
+    (forall f', r = Some f' -> v2_WInv f' /\ blen f' <= blen f).
+Proof. exact (v2_w_defrag f). Qed.
+
+Lemma v2_init_w : v2_WInv v2_init.
+Proof. apply v2_Inv_weak, v2_inv_init. Qed.
+
+Ltac inst_cw2 lem X :=
+  pose proof (lem bfile v2_load v2_store1 v2_remove1 (fun _ : bkey => v2_init) (fun _ : bkey => v2_defrag) v2_WInv blen B2 two24) as X;
+  repeat first [specialize (X v2_w_store) | specialize (X v2_w_remove)
+               | specialize (X (fun _ : bkey => conj v2_init_w (eq_refl B2))) | specialize (X v2_w_defrag_k)].
+
+(* caches whose bundles are only weakly valid (some stores failed): histories go on, defragmentation changes no tile *)
+Theorem v2c_w_history ops c b :
+  B2 <= b -> cache_ok v2_WInv blen b c -> Forall (cop_ok two24) ops -> b + cops_bytes ops < two40 ->
+  exists c', fold_left (c_step bfile v2_store1 v2_remove1 (fun _ => v2_init)) ops (Some c) = Some c' /\
+             cache_ok v2_WInv blen (b + cops_bytes ops) c'.
+Proof. inst_cw2 c_history_ok X. exact (X ops c b). Qed.
+
+Theorem v2c_w_defrag skip c b : b < two40 -> cache_ok v2_WInv blen b c ->
+  exists c', v2c_defrag skip c = Some c' /\
+    (forall coord, v2c_load c' coord = v2c_load c coord) /\
+    cache_ok v2_WInv blen b c' /\
+    (forall k f', In (k, f') c' -> exists f, In (k, f) c /\ blen f' <= blen f).
+Proof. inst_cw2 c_defrag_ok X. exact (X skip c b). Qed.
+
+(* ================================================================================================ *)
+(* Part 10: the same for v1                                                                          *)
+
+Definition v1_wextra (st : v1st) : Prop :=
+  bytes_ok (fst st) /\ bytes_ok (snd st) /\ blen (fst st) = X1 /\
+  (forall s, slot_ok s ->
+     let off := brd (fst st) (v1_ioff s) 5 in
+     off = 0 \/ (60 <= off /\ off + 4 + brd (snd st) off 4 <= blen (snd st))) /\
+  brd (snd st) 24 8 <= blen (snd st) /\ brd (snd st) 16 8 <= blen (snd st).
+
+Lemma v1_store_facts_w st s d :
+  Inv_g v1st v1_rec v1_dlen B1 two32 v1_wextra st -> slot_ok s -> bytes_okl d -> zlen d < two32 ->
+  v1_dlen st + 4 + zlen d < two40 ->
+  exists st', v1_store1 st s d = Some st' /\ v1_wextra st' /\ v1_dlen st' = v1_dlen st + 4 + zlen d /\
+    v1_rec st' s = (if zlen d =? 0 then None else Some (v1_dlen st, d)) /\
+    forall s', slot_ok s' -> s' <> s -> v1_rec st' s' = v1_rec st s'.
+Proof.
+  destruct st as [idx dat]. unfold v1_dlen at 1 2 3. cbn [snd]. intros HW0. change (v1_WInv (idx, dat)) in HW0. revert HW0.
+
+  intros HW Hs Hd Hm Hg. pose proof (v1_store_shape idx dat s d HW Hs Hd Hm Hg) as Hshape. cbv zeta in *.
+  destruct Hshape as [hb [Lhb [Hhb [E [Hh5 Hh4]]]]].
+  pose proof (zlen_nonneg d) as Hz. assert (HB1 : B1 = 65596) by reflexivity.
+  assert (HW' := HW). destruct HW' as [[G1 [G2 [_ G4]]] [Hbi [Hbd [Hli [Hent [H5 H4]]]]]]. unfold v1_dlen in *. cbn [fst snd] in *.
+  set (e := blen dat) in *. set (dat1 := bwrite dat e (le 4 (zlen d))) in *. set (dat2 := bwrite dat1 (e + 4) d) in *.
+  set (dat3 := bwrite dat2 0 hb) in *. set (idx' := bwrite idx (v1_ioff s) (le 5 e)) in *.
+  assert (T32 : two32 = 4294967296) by reflexivity.
+  assert (L1 : blen dat1 = e + 4) by (unfold dat1; rewrite blen_bwrite, zlen_le; fold e; lia).
+  assert (L2 : blen dat2 = e + 4 + zlen d) by (unfold dat2; rewrite blen_bwrite, L1; lia).
+  assert (L3 : blen dat3 = e + 4 + zlen d) by (unfold dat3; rewrite blen_bwrite, L2, Lhb; lia).
+  assert (Hb2 : bytes_ok dat2).
+  { unfold dat2. apply bytes_ok_bwrite; [unfold dat1; apply bytes_ok_bwrite; [assumption|apply le_bytes|fold e; lia]|assumption|lia]. }
+  assert (Hb3 : bytes_ok dat3) by (unfold dat3; apply bytes_ok_bwrite; [assumption|assumption|lia]).
+  assert (F2 : forall o n, o + Z.of_nat n <= e -> bread dat2 o n = bread dat o n).
+  { intros o n Hn. unfold dat2, dat1. rewrite bread_bwrite_out by (fold dat1; lia).
+    rewrite bread_bwrite_out by (rewrite ?zlen_le; fold e; lia). reflexivity. }
+  assert (F3 : forall o n, 60 <= o -> bread dat3 o n = bread dat2 o n).
+  { intros o n Ho. unfold dat3. apply bread_bwrite_out; [lia|rewrite Lhb; lia]. }
+  assert (Hsz2 : brd dat2 e 4 = zlen d).
+  { unfold dat2. rewrite brd_bwrite_out by (change (Z.of_nat 4) with 4; lia). unfold dat1.
+    apply brd_bwrite_same; [fold e; lia|rewrite pow4; lia]. }
+  assert (Hdat2 : bread dat2 (e + 4) (length d) = d) by (unfold dat2; apply bread_bwrite_same; lia).
+  (* (idx, dat2) and (idx, dat3): nothing changed for any address *)
+  destruct (v1_dat_frame_w idx dat dat2 HW) as [W2 R2]; [lia|exact Hb2|intros; apply F2; lia| | |].
+  { unfold brd. rewrite F2 by (change (Z.of_nat 8) with 8; lia). fold (brd dat 24 8). lia. }
+  { unfold brd. rewrite F2 by (change (Z.of_nat 8) with 8; lia). fold (brd dat 16 8). lia. }
+  destruct (v1_dat_frame_w idx dat dat3 HW) as [W3 R3]; [lia|exact Hb3|intros; rewrite F3 by lia; apply F2; lia| | |].
+  { fold dat3 in Hh5. rewrite Hh5, L3. lia. }
+  { fold dat3 in Hh4. rewrite L3. lia. }
+  assert (Hsum : forall dd, (forall s', slot_ok s' -> v1_rec (idx, dd) s' = v1_rec (idx, dat) s') ->
+            B1 + g_live_sum v1st v1_rec (idx, dd) <= e /\
+            forall s' a d', slot_ok s' -> v1_rec (idx, dd) s' = Some (a, d') -> a + 4 + zlen d' <= e).
+  { intros dd Rd. split.
+    - unfold g_live_sum in *. rewrite (sum_on_ext v1st v1_rec (idx, dat) (idx, dd) all_slots); [exact G4|].
+      intros s' Hs'. apply Rd. now apply in_all_slots.
+    - intros s' a d' Hs' H. rewrite Rd in H by assumption. now destruct (G2 s' a d' Hs' H) as [_ [? _]]. }
+  destruct (Hsum dat2 R2) as [S2 B2']. destruct (Hsum dat3 R3) as [S3 B3'].
+  destruct (v1_entry_w idx dat2 s d e W2 Hs Hd Hm Hg L2 Hsz2 Hdat2 G1 S2 B2') as [W4 [R4 O4]].
+  assert (Hsz3 : brd dat3 e 4 = zlen d) by (unfold brd; rewrite F3 by lia; exact Hsz2).
+  assert (Hdat3 : bread dat3 (e + 4) (length d) = d) by (rewrite F3 by lia; exact Hdat2).
+  destruct (v1_entry_w idx dat3 s d e W3 Hs Hd Hm Hg L3 Hsz3 Hdat3 G1 S3 B3') as [W5 [R5 O5]].
+  fold idx' in W4, R4, O4, W5, R5, O5.
+  exists (idx', dat3). split; [exact E|]. split; [|split; [|split]].
+  - destruct W5 as [_ W5]. exact W5.
+  - unfold v1_dlen. cbn [snd]. exact L3.
+  - exact R5.
+  - intros s' Hs' Hne. rewrite O5 by assumption. now apply R3.
+Qed.
+
+Lemma v1_remove_facts_w st s : Inv_g v1st v1_rec v1_dlen B1 two32 v1_wextra st -> slot_ok s ->
+  v1_wextra (v1_remove1 st s) /\ v1_dlen (v1_remove1 st s) = v1_dlen st /\ v1_rec (v1_remove1 st s) s = None /\
+  forall s', slot_ok s' -> s' <> s -> v1_rec (v1_remove1 st s) s' = v1_rec st s'.
+Proof.
+  intros [_ [Hbi [Hbd [Hli [Hent [H5 H4]]]]]] Hs. destruct st as [idx dat]. unfold v1_dlen, v1_remove1. cbn [fst snd] in *.
+  destruct (v1_ioff_range s Hs) as [I1 I2]. assert (HX1 : X1 = 81952) by reflexivity.
+  change (repeat 0 v1_entry_remove_bytes) with (le 5 0). set (idx' := bwrite idx (v1_ioff s) (le 5 0)).
+  assert (Li : blen idx' = X1) by (unfold idx'; rewrite blen_bwrite, zlen_le, Hli; change (Z.of_nat 5) with 5; lia).
+  assert (Fi : forall o n, o + Z.of_nat n <= v1_ioff s \/ v1_ioff s + 5 <= o -> bread idx' o n = bread idx o n).
+  { intros o n H. unfold idx'. apply bread_bwrite_out; [lia|rewrite zlen_le; change (Z.of_nat 5) with 5; lia]. }
+  assert (Hz : brd idx' (v1_ioff s) 5 = 0) by (unfold idx'; apply brd_bwrite_same; [lia|rewrite pow5; unfold two40; lia]).
+  assert (Hev : forall s', slot_ok s' -> s' <> s -> brd idx' (v1_ioff s') 5 = brd idx (v1_ioff s') 5).
+  { intros s' Hs' Hne. destruct (v1_ioff_range s' Hs') as [J1 J2].
+    pose proof (v1_ioff_disj s s' Hs Hs' (fun H => Hne (eq_sym H))) as Hdis.
+    unfold brd. rewrite Fi by (change (Z.of_nat 5) with 5; lia). reflexivity. }
+  assert (Hother : forall s', slot_ok s' -> s' <> s -> v1_rec (idx', dat) s' = v1_rec (idx, dat) s').
+  { intros s' Hs' Hne. unfold v1_rec. cbn [fst snd]. now rewrite Hev. }
+  assert (Hself : v1_rec (idx', dat) s = None) by (unfold v1_rec; cbn [fst snd]; rewrite Hz; reflexivity).
+  splits; [|reflexivity|exact Hself|exact Hother].
+  unfold v1_wextra. cbn [fst snd]. splits; auto.
+  - unfold idx'. apply bytes_ok_bwrite; [assumption|apply le_bytes|lia].
+  - intros s' Hs'. cbv zeta. destruct (slot_eq_dec s' s) as [->|Hne]; [left; exact Hz|].
+    rewrite Hev by assumption. apply (Hent s' Hs').
+Qed.
+
+Lemma v1_fresh_facts_w c r :
+  v1_wextra (v1_init c r) /\ v1_dlen (v1_init c r) = B1 /\ forall s, slot_ok s -> v1_rec (v1_init c r) s = None.
+Proof.
+  destruct (v1_fresh_facts c r) as [[Hbi [Hbd [Hli [Hent [H5 [H4 _]]]]]] [Hl Hn]]. splits; auto.
+  unfold v1_wextra. splits; auto. lia.
+Qed.
+
+Lemma v1_load_rec_g st s : Inv_g v1st v1_rec v1_dlen B1 two32 v1_wextra st -> slot_ok s ->
+  v1_load st s = match v1_rec st s with Some (_, d) => RData d | None => RMissing end.
+Proof. exact (v1_load_rec_w st s). Qed.
+
+Ltac inst_w1 c r lem X :=
+  pose proof (lem v1st v1_load v1_store1 v1_remove1 (v1_init c r) v1_rec v1_dlen B1 two32 v1_wextra) as X;
+  repeat first [specialize (X v1_load_rec_g) | specialize (X v1_store_facts_w) | specialize (X v1_remove_facts_w)
+               | specialize (X (v1_fresh_facts_w c r))].
+
+Theorem v1_w_store st s d :
+  v1_WInv st -> slot_ok s -> bytes_okl d -> zlen d < two32 -> v1_dlen st + 4 + zlen d < two40 ->
+  exists st', v1_store1 st s d = Some st' /\ v1_WInv st' /\ v1_dlen st' = v1_dlen st + 4 + zlen d /\
+    v1_load st' s = (if zlen d =? 0 then RMissing else RData d) /\
+    forall s', slot_ok s' -> s' <> s -> v1_load st' s' = v1_load st s'.
+Proof.
+  intros HI Hs Hd Hm Hg. inst_w1 0 0 g_inv_store X.
+  destruct (X st s d HI Hs Hd Hm Hg) as [st' [E [HI' [Hl [Hr Ho]]]]].
+  exists st'. change (v1_WInv st') in HI'. splits; auto.
+  - rewrite v1_load_rec_w by assumption. rewrite Hr. destruct (zlen d =? 0); reflexivity.
+  - intros s' Hs' Hne. rewrite !v1_load_rec_w by assumption. now rewrite Ho.
+Qed.
+
+Theorem v1_w_remove st s : v1_WInv st -> slot_ok s ->
+  v1_WInv (v1_remove1 st s) /\ v1_dlen (v1_remove1 st s) = v1_dlen st /\ v1_load (v1_remove1 st s) s = RMissing /\
+  forall s', slot_ok s' -> s' <> s -> v1_load (v1_remove1 st s) s' = v1_load st s'.
+Proof.
+  intros HI Hs. inst_w1 0 0 g_inv_remove X. destruct (X st s HI Hs) as [HI' [Hl [Hr Ho]]].
+  change (v1_WInv (v1_remove1 st s)) in HI'. splits; auto.
+  - rewrite v1_load_rec_w by assumption. now rewrite Hr.
+  - intros s' Hs' Hne. rewrite !v1_load_rec_w by assumption. now rewrite Ho.
+Qed.
+
+Theorem v1_w_history ops st :
+  v1_WInv st -> Forall (op_ok two32) ops -> v1_dlen st + ops_bytes ops < two40 ->
+  exists st', fold_left v1_step ops (Some st) = Some st' /\ v1_WInv st' /\ v1_dlen st' = v1_dlen st + ops_bytes ops.
+Proof. intros HI Hf Hg. inst_w1 0 0 g_history_inv X. exact (X ops st HI Hf Hg). Qed.
+
+Theorem v1_w_defrag c r st : v1_WInv st -> v1_dlen st < two40 ->
+  exists o, v1_defrag c r st = Some o /\
+    (forall s, slot_ok s -> g_load_opt v1st v1_load o s = v1_load st s) /\
+    (forall st', o = Some st' -> v1_WInv st' /\ v1_dlen st' <= v1_dlen st).
+Proof.
+  intros HI Hg. inst_w1 c r g_defrag_spec X. destruct (X st HI Hg) as [o [E [Hl [Hs _]]]].
+  exists o. splits; auto. intros st' Hr. destruct (Hs st' Hr) as [HI' [_ ?]]. split; [exact HI'|assumption].
+Qed.
+
+Lemma v1_w_defrag_k (k : bkey) st : v1_WInv st -> v1_dlen st < two40 ->
+  exists o, (let '(_, c, r) := k in v1_defrag c r) st = Some o /\
+    (forall s, slot_ok s -> g_load_opt v1st v1_load o s = v1_load st s) /\
+    (forall st', o = Some st' -> v1_WInv st' /\ v1_dlen st' <= v1_dlen st).
+Proof. destruct k as [[z c] r]. exact (v1_w_defrag c r st). Qed.
+
+Lemma v1_fresh_w k : v1_WInv (v1_fresh k) /\ v1_dlen (v1_fresh k) = B1.
+Proof. destruct (v1_fresh_ok k) as [H ?]. split; [now apply v1_Inv_weak|assumption]. Qed.
+
+Ltac inst_cw1 lem X :=
+  pose proof (lem v1st v1_load v1_store1 v1_remove1 v1_fresh (fun k : bkey => let '(_, c, r) := k in v1_defrag c r)
+                  v1_WInv v1_dlen B1 two32) as X;
+  repeat first [specialize (X v1_w_store) | specialize (X v1_w_remove) | specialize (X v1_fresh_w)
+               | specialize (X v1_w_defrag_k)].
+
+Theorem v1c_w_history ops c b :
+  B1 <= b -> cache_ok v1_WInv v1_dlen b c -> Forall (cop_ok two32) ops -> b + cops_bytes ops < two40 ->
+  exists c', fold_left (c_step v1st v1_store1 v1_remove1 v1_fresh) ops (Some c) = Some c' /\
+             cache_ok v1_WInv v1_dlen (b + cops_bytes ops) c'.
+Proof. inst_cw1 c_history_ok X. exact (X ops c b). Qed.
+
+Theorem v1c_w_defrag skip c b : b < two40 -> cache_ok v1_WInv v1_dlen b c ->
+  exists c', v1c_defrag skip c = Some c' /\
+    (forall coord, v1c_load c' coord = v1c_load c coord) /\
+    cache_ok v1_WInv v1_dlen b c' /\
+    (forall k st', In (k, st') c' -> exists st, In (k, st) c /\ v1_dlen st' <= v1_dlen st).
+Proof. inst_cw1 c_defrag_ok X. exact (X skip c b). Qed.
